@@ -5,6 +5,7 @@ import (
 	"encoding/binary"
 	"errors"
 	"fmt"
+	bolt "go.etcd.io/bbolt"
 	"os"
 	"path/filepath"
 	"runtime"
@@ -43,13 +44,16 @@ var errMap = map[dbmodel.Err]error{
 }
 
 type exec struct {
-	env       *core.Env
-	p         *core.Plan
-	file      string
-	db        *faultdb.DB
-	committed *dbmodel.Bucket // model of the committed database (root: only Sub is used)
-	pregrown  int64           // bytes the file was pre-grown to (0 = not)
-	strict    bool            // cfg strict_cdel: treat bbolt's delete-then-Next skip as a violation
+	shadow       *shadowDisk // cfg crash: the disk as a power loss sees it
+	images       int
+	lastCrashSeq int64
+	env          *core.Env
+	p            *core.Plan
+	file         string
+	db           *faultdb.DB
+	committed    *dbmodel.Bucket // model of the committed database (root: only Sub is used)
+	pregrown     int64           // bytes the file was pre-grown to (0 = not)
+	strict       bool            // cfg strict_cdel: treat bbolt's delete-then-Next skip as a violation
 	// cfg last_on_emptied: call Cursor.Last even on a bucket that is empty
 	// inside a read-write transaction. Off by default, because bbolt 1.3.11
 	// spins for ever in Cursor.Last when a bucket that spans at least two leaf
@@ -106,6 +110,10 @@ func (x *exec) readTxIsReadOnly() bool {
 func (x *exec) open(create bool) bool {
 	var inner walletdb.DB
 	var err error
+	if x.shadow != nil {
+		x.shadow.reset(x.file)
+		bolt.VerifDisk[x.file] = x.shadow.hooks()
+	}
 	if create {
 		inner, err = walletdb.Create("bdb", x.file, true, 10*time.Second, false)
 	} else {
@@ -238,6 +246,10 @@ func (sim) Execute(env *core.Env, p *core.Plan) {
 	x := &exec{env: env, p: p, file: filepath.Join(env.Dir, "c11.db"), committed: dbmodel.NewBucket(),
 		strict: p.C("strict_cdel", 0) != 0, lastOnEmptied: p.C("last_on_emptied", 0) != 0,
 		strictBwd: p.C("strict_bwd", 0) != 0}
+	if p.C("crash", 0) != 0 {
+		x.shadow = &shadowDisk{}
+		defer delete(bolt.VerifDisk, x.file)
+	}
 	if !x.open(true) {
 		return
 	}
@@ -267,9 +279,15 @@ func (sim) Execute(env *core.Env, p *core.Plan) {
 		case "bgroup":
 			x.batchGroup(ops[i])
 			i++
+		case "crashtx":
+			x.crashTx(ops[i])
+			i++
+		case "durable":
+			x.durabilityCheck("between-transactions")
+			i++
 		default:
 			j := i + 1
-			for j < len(ops) && ops[j].T == ops[i].T && ops[j].K != "reopen" && ops[j].K != "romut" && ops[j].K != "bgroup" {
+			for j < len(ops) && ops[j].T == ops[i].T && ops[j].K != "reopen" && ops[j].K != "romut" && ops[j].K != "bgroup" && ops[j].K != "crashtx" && ops[j].K != "durable" {
 				j++
 			}
 			x.group(ops[i:j], i)
@@ -277,6 +295,7 @@ func (sim) Execute(env *core.Env, p *core.Plan) {
 		}
 		env.State("%x", x.committed.Digest())
 	}
+	x.durabilityCheck("at-end")
 }
 
 func (x *exec) reopen() {
